@@ -338,16 +338,22 @@ def main(pid, tier, replay_path=None):
                         scs += gen_scenarios(other, n_other, seed)
             res, crashed = run_scenarios(sc, binary, scs, 'a', procs=12)
             fp_cov, fp_scs = {}, []
-            if pid == 'C08' and not replay_path:
-                # the output hand-off as an implementation-shaped model: exhaustive TLC, then its schedules on the real code
-                import flushp
-                fst, ftr = flushp.exhaustive(sc, tier)
-                fp_scs = flushp.scenarios(sc, tier, seed)
+            proto, pname = None, ''
+            if pid == 'C08':
+                import flushp as proto
+                pname = 'flushproto'
+            elif pid == 'C07':
+                import readp as proto
+                pname = 'readproto'
+            if proto and not replay_path:
+                # the hand-off as an implementation-shaped model: exhaustive TLC, then its schedules on the real code
+                fst, ftr = proto.exhaustive(sc, tier)
+                fp_scs = proto.scenarios(sc, tier, seed)
                 fres, fcr = run_scenarios(sc, binary, fp_scs, 'fp', procs=8)
                 res.update(fres)
                 crashed += fcr
-                fp_cov = {'flushproto_states': fst, 'flushproto_transitions': ftr, 'flushproto_schedules_replayed': len(fres),
-                          'flushproto_plans_that_drifted': sum(1 for s in fp_scs if fres.get(s['id'], {}).get('info', {}).get('drift', 0) > 0)}
+                fp_cov = {pname + '_states': fst, pname + '_transitions': ftr, pname + '_schedules_replayed': len(fres),
+                          pname + '_plans_that_drifted': sum(1 for s in fp_scs if fres.get(s['id'], {}).get('info', {}).get('drift', 0) > 0)}
             if not replay_path:
                 # single-stall exploration over a sample of this property's own family
                 own = [s for s in scs if s['id'].startswith(fam + '-')]
@@ -421,11 +427,10 @@ def main(pid, tier, replay_path=None):
                     samples.append({'scenario': {k: s[k] for k in s if k not in ('plan',)}, 'schedule_taken': r['info']['taken'][:60],
                                     'events': ['%s:%s:%s' % (e['g'], e['e'], e['k']) for e in r['events'][:40]]})
             if fp_scs:
-                import flushp
-                c_, t_, _ = flushp.impl_check(sc, [(s, res[s['id']]) for s in fp_scs if s['id'] in res and not res[s['id']]['info'].get('stuck')], 'all')
-                fp_cov['flushproto_impl_spec_conformance'] = {'steps_followed': c_, 'steps_total': t_, 'all_followed': c_ == t_}
+                c_, t_, _ = proto.impl_check(sc, [(s, res[s['id']]) for s in fp_scs if s['id'] in res and not res[s['id']]['info'].get('stuck')], 'all')
+                fp_cov[pname + '_impl_spec_conformance'] = {'steps_followed': c_, 'steps_total': t_, 'all_followed': c_ == t_}
                 if c_ != t_:
-                    vlib.log('note: FlushProto.tla could not follow a recorded schedule (line %d of %d): the code no longer matches the implementation-shaped spec' % (c_ + 1, t_))
+                    vlib.log('note: the implementation-shaped spec (%s) could not follow a recorded schedule (line %d of %d): the code no longer matches it' % (pname, c_ + 1, t_))
             steps = sum(r['info'].get('steps', 0) for r in res.values())
             cov = {'states': st.get('states', 1), 'transitions': st.get('transitions', 1),
                    'traces_validated_against_impl': ran, 'samples': samples,
@@ -433,14 +438,14 @@ def main(pid, tier, replay_path=None):
                    'distinct_schedules': len({tuple(r['info']['taken']) for r in res.values()}),
                    'violations_of_other_properties_seen': len([v for v in vs if not v['rule'].startswith(pid + '.')]),
                    'known_findings_matched': sorted(known_hit),
-                   'spec_modules': vlib.spec_hashes(['ConnObs.tla', 'TraceConn.tla'] + (['FlushProto.tla', 'TraceFPImpl.tla'] if fp_scs else [])),
+                   'spec_modules': vlib.spec_hashes(['ConnObs.tla', 'TraceConn.tla'] + ({'C08': ['FlushProto.tla', 'TraceFPImpl.tla'], 'C07': ['ReadProto.tla', 'TraceRPImpl.tla']}.get(pid, []) if fp_scs else [])),
                    'explanation': 'real connection on a socketpair with a manual poller under the controlled scheduler (every locker/FDOperator/trigger/'
                                   'length primitive is a schedule point); each execution is a recorded event trace validated by TLC against ConnObs.tla; '
                                   'states/transitions are those of the trace-validation run (one state per event)'}
             if fp_cov:
                 cov.update(fp_cov)
                 cov['trace_validation_states'] = cov['states']
-                cov['states'], cov['transitions'] = fp_cov['flushproto_states'], fp_cov['flushproto_transitions']   # the exhaustive model of this property
+                cov['states'], cov['transitions'] = fp_cov[pname + '_states'], fp_cov[pname + '_transitions']   # the exhaustive model of this property
             vlib.write_evidence(pid, tier, 'model_checking', cov, time.time() - t0, len(violations),
                                 ['TLC/SANY', 'Go toolchain', 'controlled scheduler and manual poller of the harness', 'kernel socketpair/epoll behaviour as observed',
                                  'handler scripts respect the documented contract (consume or close)'])
